@@ -149,8 +149,9 @@ def generate(rnd, tier):
         obj["via"] = "init"
         obj["kind"] = "group"
     else:
-        obj = c11.gen_source(rnd, "large" if big else rnd.choice(["tiny", "small", "small"]), False)
+        obj = c11.gen_source(rnd, "large" if big else rnd.choice(["tiny", "small", "small"]), False, allow_extreme=False)
         obj["kind"] = "scores"
+    obj["subclass"] = rnd.random() < 0.1
     fault_free = rnd.random() < 0.34
     ops = []
     for _ in range(rnd.randint(1, 5)):
@@ -158,6 +159,10 @@ def generate(rnd, tier):
             ops.append({"op": "reseed", "seed": rnd.randrange(2**31)})
             continue
         metric = gen_metric(rnd, is_group)
+        if obj.get("subclass") and rnd.random() < 0.5:
+            metric = {"name": "extra_metric", "kwargs": {"threshold": c12.gen_thr(rnd) if rnd.random() < 0.7 else {"shape": [], "data": [0.0]}}}
+            if metric["kwargs"]["threshold"]["shape"] == [0]:
+                metric["kwargs"]["threshold"] = {"shape": [2], "data": [0.0, 1.0]}
         sampler = gen_sampler(rnd, is_group, big)
         if is_group and big and rnd.random() < 0.5:
             # the method-resolution interplay: "dynamic" is resolved differently by Scores and GroupScores (by_group forces
@@ -310,7 +315,9 @@ def dec_kwargs(kw):
     return out
 
 
-def my_eval(name, sample, kwargs):
+def my_eval(name, sample, kwargs, owner=None):
+    if name == "extra_metric":  # defined on the source's (user) class only; resamples are plain library objects
+        return getattr(owner, name)(sample, **kwargs)
     return getattr(type(sample), name)(sample, **kwargs)
 
 
@@ -339,6 +346,15 @@ def execute(scn, ctx):
     build = M.build_group_scores if is_group else M.build_scores
     src, callers = build(spec)
     cfp = callers.fp0
+    if spec.get("subclass"):
+        # a user subclass adding its own metric: names must be resolved on the object's own class
+        base_cls = type(src)
+
+        class UserScores(base_cls):
+            def extra_metric(self, threshold):
+                return 2.0 * np.asarray(base_cls.fnr(self, threshold), dtype=float) + 0.125
+
+        src.__class__ = UserScores
     viol, trace, sig = [], [], []
     probes, faults = {}, {}
     n_draws = n_forced = n_lines = 0
@@ -502,7 +518,7 @@ def execute(scn, ctx):
                             bad("rows_from_sampler", f"metric was evaluated on {len(col)} sample objects, the sampler produced {len(outs)}; they are not the same objects in the same order")
                     else:
                         for smp, _ in col:
-                            if not isinstance(smp, type(src)) or (smp.score_class, smp.equal_class) != (src.score_class, src.equal_class):
+                            if not isinstance(smp, L.GroupScores if is_group else L.Scores) or (smp.score_class, smp.equal_class) != (src.score_class, src.equal_class):
                                 bad("rows_from_sampler", "metric was evaluated on an object that is not a resample of the source")
                                 break
                         else:
@@ -525,13 +541,13 @@ def execute(scn, ctx):
                         bad("one_row_per_sample", f"{len(col)} samples were evaluated for nb_samples={nb}")
             else:
                 try:
-                    est = my_eval(mname, src, kwargs)
+                    est = my_eval(mname, src, kwargs, type(src))
                     est_all = [est]
                 except Exception:  # noqa: BLE001
                     est = None
                 if outs is not None:
                     try:
-                        reps = [my_eval(mname, o_, kwargs) for o_ in outs] if len(outs) == nb else None
+                        reps = [my_eval(mname, o_, kwargs, type(src)) for o_ in outs] if len(outs) == nb else None
                     except Exception:  # noqa: BLE001 - metric undefined on a sample: nothing to compare
                         reps = None
                     if s_kind != "identity" and len(outs) != nb:
@@ -603,7 +619,7 @@ def execute(scn, ctx):
             try:
                 config = M.build_config(dict(sspec, **cfg))
                 reps2 = np.asarray(src.bootstrap_metric(mname, config=config, **kwargs), dtype=float)
-                est2 = np.asarray(my_eval(mname, src, kwargs), dtype=float)
+                est2 = np.asarray(my_eval(mname, src, kwargs, type(src)), dtype=float)
                 method = cfg["bootstrap_method"]
                 if isinstance(alpha, list):
                     exp = np.stack([M.ref_ci(reps2, est2, a, method) for a in alpha], axis=-2)
